@@ -41,7 +41,7 @@ def make_case(index, rng, tier):
     n = rng.randrange(1, 4)
     sub = rng.randrange(12) == 0          # bodyless-with-body sub-check
     reqs = [appgen.gen_request(rng) for _ in range(n)]
-    progs = [appgen.gen_program(rng) for _ in range(n)]
+    progs = [appgen.gen_program(rng, allow_1xx=True) for _ in range(n)]
     for r, p in zip(reqs, progs):
         if p["status"].startswith("101") and (r["version"] == [1, 0] or n > 1 or sub or r["method"] == "HEAD" or p["fail"]):
             # a well-behaved application does not answer an HTTP/1.0 request with a 1xx status; and once the protocol is switched the
